@@ -1,5 +1,6 @@
 (* Runs C12 cases on the model extracted from Coq (c12x.ml).  Line formats (same as harness/c12_reduce.c):
      enc <hex>                 -> E <hex>            (or STUCK)
+     encf <fill> <hex>         -> E <hex>            (the model encoder never reads behind buf_bound: fill ignored)
      dec <fx> <fill> <hex>     -> A <hex> | R | O <what> <idx> | NOFUEL
      hash <seedhex> <hex>      -> H <decimal>
    <hex> may be "-" for the empty string.  fx: 1 = model of the fixed decoder, 0 = original checks.
@@ -66,7 +67,7 @@ let () =
     while true do
       let line = input_line stdin in
       (match words line with
-       | ["enc"; h] ->
+       | ["enc"; h] | ["encf"; _; h] ->
          (match encode (bytes_of_hex h) with
           | Some o -> print_endline ("E " ^ hex_of_bytes o)
           | None -> print_endline "STUCK")
